@@ -22,12 +22,14 @@ CLAIMED = {
          "Pre-states mix up-to-date, stale, missing, torn and non-UTF-8 generated files after source edits and tampering."),
  "C10": ("exploration", "5.C10", "whole-tree snapshot diff (bytes, inode, mtime) around every simulated invocation in all four modes, failing projects and decoys included",
          "No schedule occurs in the statement; the simulator contributes the executions (all modes, all verdicts, dirty trees) around which the diff is taken."),
+ "C11": ("exploration", "5.C11", "seeded trees x input lists x recursion x base/cwd under seeded schedules of scan and preprocess tasks; oracle = set semantics of input resolution (R-inputs) + README naming rule + whole-tree diff + execution markers",
+         "The schedule-dependent part is the coordinator's seen-set under interleaved ScanDir/Preprocess results; naming and classification are checked as a by-product on every generated tree."),
+ "C17": ("exploration", "5.C17", "swarm over (process cwd, base dir, depth, shell, entry point) per simulated run; oracles on captured pwd / TXTPP_FILE / argument shown by a printf shell / exit status; CLI guard through the real binary",
+         "No schedule occurs in the statement; the simulator contributes the per-run draw of every environment knob. CLI cases run the real binary under OS scheduling and assert only schedule-independent facts."),
 }
 
 NA = {
  "C01": "claimed later in this build (R-spec engine not yet registered)",
- "C11": "claimed later in this build (inputs engine not yet registered)",
- "C17": "claimed later in this build (shell engine not yet registered)",
  "C18": "claimed later in this build (fuzz engine not yet registered)",
  "C12": "pure function of one source text (line-ending normalisation): no schedule, clock, fault, crash point or interleaving for a simulator to vary; DESIGN.md section 6",
  "C13": "pure function of (source text, one boolean option): nothing for a scheduler or fault injector to vary; DESIGN.md section 6",
